@@ -72,6 +72,10 @@ class Level:
         self.make = make or (lambda vals: tuple(vals) if len(vals) != 1 else vals[0])
 
 
+class Outside(Exception):
+    """the input is outside the quantifier of the property (behaviour not fixed by the docs)"""
+
+
 class Fail(Exception):
     def __init__(self, why):
         Exception.__init__(self, why)
@@ -150,9 +154,17 @@ def conv(ex, env, f, vid):
     return Opaque("u32", (SymStr(vid),))
 
 
-def eval_level(ex, env, level, items, lo, hi):
+def eval_level(ex, env, level, items, lo, hi, enclosing=()):
     """returns the value the items[lo:hi] denote under `level` or raises Fail"""
     n = len(items)
+    # an enclosing level's option written to the right of the subcommand name: not fixed by the docs
+    for i in range(lo, hi):
+        if items[i].kind == "dd":
+            break
+        if items[i].kind in ("short", "long"):
+            for f in enclosing:
+                if name_match(ex, env, f, items[i]):
+                    raise Outside()
     claimed = [False] * n
     dd = None
     for i in range(lo, hi):
@@ -279,7 +291,8 @@ def eval_level(ex, env, level, items, lo, hi):
             claimed[first] = True
             # an enclosing-level item to the right of the command name is outside the quantifier:
             # callers assume it away (see `enclosing_right_of_cmd`)
-            v = eval_level(ex, env, cmd.level, items, first + 1, hi)
+            v = eval_level(ex, env, cmd.level, items, first + 1, hi,
+                           tuple(enclosing) + tuple(f for f in level.fields if isinstance(f, Named)))
             for i in range(first + 1, hi):
                 claimed[i] = True
             if cf.tag is not None:
@@ -341,3 +354,5 @@ def run_spec(ex, env, level, items):
         return ("ok", eval_level(ex, env, level, items, 0, len(items)))
     except Fail as f:
         return ("fail", f.why)
+    except Outside:
+        return ("outside", None)
